@@ -215,6 +215,25 @@ func checkC09(c *Ctx) {
 			jobs = append(jobs, j)
 		}
 	}
+	// maximally dense lines (every byte a structural or a one-digit number) with the first read
+	// ending at every length of a window: whichever chunk results, its last index buffer may be
+	// filled to the brim by the tail call of stage 1
+	{
+		var sb strings.Builder
+		sb.WriteString("{\"k\":\"\"}\n")
+		for l := 0; l < 60; l++ {
+			sb.WriteString("[" + strings.Repeat("1,", 28) + "1]\n")
+		}
+		st := []byte(sb.String())
+		for first := 1350; first <= 1750; first += c.N(1, 1) {
+			if !c.Thorough() && first%2 == 1 {
+				continue
+			}
+			j := &job{stream: st, sizes: []int{first, 1 << 20}, fail: -1, reuse: first % 3}
+			j.out = runStream(&fragReader{data: st, sizes: []int{first, 1 << 20, 1 << 20, 1 << 20}, failAt: -1}, j.reuse, r)
+			jobs = append(jobs, j)
+		}
+	}
 	c.c09HugeStream(r)
 	var reqs []string
 	for _, j := range jobs {
